@@ -142,6 +142,8 @@ type fnCtx struct {
 	arity    int      // op: number of stack inputs
 	notes    map[string]bool
 	paramIDs []int
+	loopDefs []string // named loop bodies, emitted before the function itself
+	loopN    int
 }
 
 type gen struct {
@@ -963,7 +965,7 @@ func (g *gen) helper(n ast.Node, pkg, name string) *summary {
 	for _, m := range sum.mutated {
 		doc += fmt.Sprintf("; OVERWRITES its parameter `%s` (new content returned as an extra component)", pnames[m])
 	}
-	_ = ctx2
+	g.defs = append(g.defs, ctx2.loopDefs...)
 	g.defs = append(g.defs, fmt.Sprintf("/-- %s. -/\ndef %s %s : %s :=\n%s\n", doc, name, strings.Join(sig, " "), rt, indent(body, 1)))
 	g.sums[key] = sum
 	return sum
@@ -1359,8 +1361,9 @@ func (g *gen) assign(a *ast.AssignStmt, e *env, o *out) {
 // loop: `for _, w := range x.Bits() { .. }` and `for i := 0; i < N; i++ { .. }`
 func (g *gen) loop(s ast.Stmt, e *env, o *out) {
 	var body []ast.Stmt
-	var header func(carried string, inner string) string
+	var header func(carried string, fn string) string
 	var bindIter func(e *env)
+	var iterName, loopDoc string
 	switch t := s.(type) {
 	case *ast.RangeStmt:
 		if t.Tok != token.DEFINE || t.Value == nil || g.text(t.Key) != "_" {
@@ -1373,8 +1376,9 @@ func (g *gen) loop(s ast.Stmt, e *env, o *out) {
 		wn := g.unique(t.Value.(*ast.Ident).Name)
 		goName := t.Value.(*ast.Ident).Name
 		bindIter = func(e *env) { e.bind(goName, val{k: kScalar, lean: wn, gt: "Word"}) }
-		header = func(carried, inner string) string {
-			return fmt.Sprintf("Big.forEach %s %s fun %s %s =>\n%s", sl.lean, carried, wn, carried, indent(inner, 2))
+		iterName, loopDoc = wn, "for _, "+goName+" := range "+g.text(t.X)
+		header = func(carried, fn string) string {
+			return fmt.Sprintf("Big.forEach %s %s (%s)", sl.lean, carried, fn)
 		}
 		body = t.Body.List
 	case *ast.ForStmt:
@@ -1413,8 +1417,9 @@ func (g *gen) loop(s ast.Stmt, e *env, o *out) {
 		}
 		in := g.unique(iv)
 		bindIter = func(e *env) { e.bind(iv, val{k: kScalar, lean: in, gt: "int"}) }
-		header = func(carried, inner string) string {
-			return fmt.Sprintf("Big.forN %s %s fun %s %s =>\n%s", bound.lean, carried, in, carried, indent(inner, 2))
+		iterName, loopDoc = in, "for "+iv+" := 0; "+g.text(t.Cond)+"; "+iv+"++"
+		header = func(carried, fn string) string {
+			return fmt.Sprintf("Big.forN %s %s (%s)", bound.lean, carried, fn)
 		}
 		body = t.Body.List
 	}
@@ -1438,6 +1443,7 @@ func (g *gen) loop(s ast.Stmt, e *env, o *out) {
 			savedUsed[k] = v
 		}
 		savedTmp := g.fn.tmp
+		savedLoops, savedLoopN := len(g.fn.loopDefs), g.fn.loopN
 		g.block(body, d, func(fe *env, _ *out) string {
 			for i := range e.cells {
 				if fe.cells[i].ver != e.cells[i].ver {
@@ -1457,6 +1463,7 @@ func (g *gen) loop(s ast.Stmt, e *env, o *out) {
 			return ""
 		})
 		g.fn.used, g.fn.tmp = savedUsed, savedTmp
+		g.fn.loopDefs, g.fn.loopN = g.fn.loopDefs[:savedLoops], savedLoopN
 	}
 	var carried []string
 	var ids []int
@@ -1482,19 +1489,82 @@ func (g *gen) loop(s ast.Stmt, e *env, o *out) {
 	if len(carried) > 1 {
 		pat = "(" + strings.Join(carried, ", ") + ")"
 	}
+	// free variables of the body: every Lean name of the enclosing scopes that is not carried
+	type fv struct{ name, ty string }
+	var outer []fv
+	seenFv := map[string]bool{}
+	for _, c := range carried {
+		seenFv[c] = true
+	}
+	for _, sc := range e.scopes {
+		for _, v := range sc {
+			var n, ty string
+			switch v.k {
+			case kCell:
+				n, ty = e.cells[v.cell].name, "Int"
+			case kScalar:
+				n, ty = v.lean, "Int"
+			case kSlice:
+				n, ty = v.lean, "List Int"
+			}
+			if n != "" && !seenFv[n] {
+				seenFv[n] = true
+				outer = append(outer, fv{n, ty})
+			}
+		}
+	}
+	sort.Slice(outer, func(i, j int) bool { return outer[i].name < outer[j].name })
+	g.fn.loopN++
+	loopName := fmt.Sprintf("%s_loop%d", g.fn.name, g.fn.loopN)
 	e.loop++
 	e.scopes = append(e.scopes, map[string]val{})
 	bindIter(e)
 	inner := g.block(body, e, func(fe *env, _ *out) string { return pat })
 	e.scopes = e.scopes[:len(e.scopes)-1]
 	e.loop--
+	var params, args []string
+	for _, f := range outer {
+		if wordIn(inner, f.name) {
+			params = append(params, fmt.Sprintf("(%s : %s)", f.name, f.ty))
+			args = append(args, f.name)
+		}
+	}
+	ty := "Int"
+	for i := 1; i < len(carried); i++ {
+		ty += " × Int"
+	}
+	g.fn.loopDefs = append(g.fn.loopDefs, fmt.Sprintf("/-- body of the loop `%s` of `%s.%s`: (iteration variable) → carried variables → carried variables -/\ndef %s %s (%s : Int) : %s → %s\n  | %s =>\n%s\n",
+		loopDoc, g.fn.pkg, g.fn.name, loopName, strings.Join(params, " "), iterName, ty, ty, pat, indent(inner, 2)))
 	for _, i := range ids {
 		e.cells[i].ver++
 	}
 	for _, k := range sc {
 		e.sver[k]++
 	}
-	o.emit("let %s := %s", pat, header(pat, inner))
+	call := loopName
+	if len(args) > 0 {
+		call += " " + strings.Join(args, " ")
+	}
+	o.emit("let %s := %s", pat, header(pat, call))
+}
+
+func wordIn(text, name string) bool {
+	for i := 0; i+len(name) <= len(text); i++ {
+		if text[i:i+len(name)] != name {
+			continue
+		}
+		isId := func(c byte) bool {
+			return c == '_' || c == '.' || (c >= '0' && c <= '9') || (c >= 'a' && c <= 'z') || (c >= 'A' && c <= 'Z')
+		}
+		if i > 0 && isId(text[i-1]) {
+			continue
+		}
+		if i+len(name) < len(text) && isId(text[i+len(name)]) {
+			continue
+		}
+		return true
+	}
+	return false
 }
 
 func scalarByLean(e *env, lean string) (val, bool) {
@@ -1547,7 +1617,7 @@ func (g *gen) opFunc(name string, arity int) string {
 	}
 	sort.Strings(notes)
 	doc := fmt.Sprintf("`vm.%s` (a0 = top of stack). Ownership discipline checked; per path:\n  %s", name, strings.Join(notes, "\n  "))
-	return fmt.Sprintf("/-- %s -/\ndef %s (%s : Int) : Int :=\n%s\n", doc, name, strings.Join(sig, " "), indent(body, 1))
+	return strings.Join(g.fn.loopDefs, "\n") + fmt.Sprintf("/-- %s -/\ndef %s (%s : Int) : Int :=\n%s\n", doc, name, strings.Join(sig, " "), indent(body, 1))
 }
 
 // ---- driver ------------------------------------------------------------------------------------
